@@ -244,9 +244,10 @@ pub fn check_v6(c: &Chain, first: u8, mode: &str, ctx: &mut Ctx, input: &dyn Fn(
             }
         }
         match catch(|| {
-            let mut cur = std::io::Cursor::new(&buf[..]);
+            // the reader hands out its data whole or in 1/3/7-byte pieces
+            let mut cur = crate::props::valgen::chunked_reader(buf.to_vec());
             let r = Ipv6Extensions::read(&mut cur, IpNumber(first)).map(|(e, n)| (e, n.0));
-            (r, cur.position() as usize)
+            (r, cur.pos)
         }) {
             Err(p) => fail(ctx, "Ipv6Extensions::read", "panic", &panic_shape(false, &p), p.clone(), input)?,
             Ok((Err(e), _)) => fail(ctx, "Ipv6Extensions::read", "roundtrip", "error", format!("reading the written bytes fails: {:?}", e), input)?,
@@ -400,9 +401,9 @@ pub fn check_v4(c: &Chain, first: u8, mode: &str, ctx: &mut Ctx, input: &dyn Fn(
             }
         }
         match catch(|| {
-            let mut cur = std::io::Cursor::new(&buf[..]);
+            let mut cur = crate::props::valgen::chunked_reader(buf.to_vec());
             let r = Ipv4Extensions::read(&mut cur, IpNumber(first)).map(|(e, n)| (e, n.0));
-            (r, cur.position() as usize)
+            (r, cur.pos)
         }) {
             Err(p) => fail(ctx, "Ipv4Extensions::read", "panic", &panic_shape(false, &p), p.clone(), input)?,
             Ok((Err(e), _)) => fail(ctx, "Ipv4Extensions::read", "roundtrip", "error", format!("reading the written bytes fails: {:?}", e), input)?,
